@@ -452,7 +452,67 @@ fn hover_text(p: &GProg, t: &Ty) -> Option<String> {
     }
 }
 
+/// programs whose types carry #[derive(ToString)] / #[derive(ToJson)]: the generated methods exist
+/// for the editor as they do for the compiler (binders typed only through a call of one of them)
+fn derive_program(d: &mut Dec) -> (String, Vec<(u32, u32, String, String, bool)>) {
+    let both = d.bool();
+    let json = both || d.bool();
+    let string = both || !json;
+    let attrs = match (string, json, d.bool()) {
+        (true, true, true) => "#[derive(ToString, ToJson)]\n".to_string(),
+        (true, true, false) => "#[derive(ToString)]\n#[derive(ToJson)]\n".to_string(),
+        (true, false, _) => "#[derive(ToString)]\n".to_string(),
+        _ => "#[derive(ToJson)]\n".to_string(),
+    };
+    let is_enum = d.bool();
+    let tname = ["Point", "Shape", "Rec"][d.below(3)];
+    let mut t = String::new();
+    let value = if is_enum {
+        t.push_str(&format!("{attrs}enum {tname} {{\n    Dot,\n    At(int32, int32),\n}}\n\n"));
+        format!("{tname}::At(1, 2)")
+    } else {
+        t.push_str(&format!("{attrs}struct {tname} {{\n    x: int32,\n    y: int32,\n}}\n\n"));
+        format!("{tname} {{ x: 1, y: 2 }}")
+    };
+    t.push_str("fn main() {\n");
+    let mut marks: Vec<(u32, u32, String, String, bool)> = vec![];
+    let mut line = t.matches('\n').count() as u32;
+    let mut push = |t: &mut String, marks: &mut Vec<(u32, u32, String, String, bool)>, text: String, ms: Vec<(&str, String, bool)>| {
+        for (name, ty, binder) in ms {
+            if let Some(col) = text.find(name) {
+                marks.push((line, col as u32, name.to_string(), ty, binder));
+            }
+        }
+        t.push_str(&text);
+        t.push('\n');
+        line += 1;
+    };
+    push(&mut t, &mut marks, format!("    let pv: {tname} = {value};"), vec![("pv", tname.to_string(), true)]);
+    if string {
+        push(&mut t, &mut marks, "    let text = pv.to_string();".to_string(), vec![("text", "string".into(), true), ("to_string", format!("({tname}) -> string"), false)]);
+        push(&mut t, &mut marks, "    let pair = (text, 7);".to_string(), vec![("pair", "(string, int32)".into(), true)]);
+    }
+    if json {
+        push(&mut t, &mut marks, "    let js = pv.to_json();".to_string(), vec![("js", "string".into(), true), ("to_json", format!("({tname}) -> string"), false)]);
+        push(&mut t, &mut marks, "    let arr = [js, js];".to_string(), vec![("arr", "[string; 2]".into(), true)]);
+    }
+    t.push_str("    ()\n}\n");
+    (t, marks)
+}
+
 fn make_hover(d: &mut Dec, ctx: &mut Ctx, tier: Tier) -> Value {
+    if d.chance(14) {
+        let (text, ms) = derive_program(d);
+        let marks: Vec<Value> = ms
+            .iter()
+            .map(|(line, col, name, ty, binder)| {
+                let at = if d.bool() { "start" } else { "middle" };
+                let c = if at == "start" { *col } else { col + (name.len() / 2) as u32 };
+                json!({"line":line,"col":c,"at":at,"name":name,"binder":binder,"expect":ty,"nested":false,"shadowed":false,"method":!*binder,"derive":true})
+            })
+            .collect();
+        return json!({"kind":"hover","text":text,"marks":marks,"literals":[]});
+    }
     if d.chance(40) {
         // method names in calls on receivers of generic instances: the type at that call
         let (text, ms) = method_program_ex(d, true);
